@@ -163,7 +163,15 @@ static void exec(const std::vector<std::string> &t) {
   if (op == "mkdev") {            // mkdev d mode
     const int d = (int) L(t, 1);
     need(D.present[d]);
-    D.at(d) = occa::device({{"mode", t[2]}});
+    if (L(t, 3)) {
+      // device-level default: every memory of this device gets use_host_pointer unless the call says otherwise
+      occa::json props;
+      props["mode"] = t[2];
+      props["memory/use_host_pointer"] = true;
+      D.at(d) = occa::device(props);
+    } else {
+      D.at(d) = occa::device({{"mode", t[2]}});
+    }
     return;
   }
   if (op == "malloc") {           // malloc d m entries dtype srcH(-1 none) useHost ownHost
@@ -180,7 +188,9 @@ static void exec(const std::vector<std::string> &t) {
   if (op == "wrap") {             // wrap d m H entries dtype
     const int d = (int) L(t, 1), m = (int) L(t, 2), h = (int) L(t, 3);
     need(D.present[d] && M.present[m]);
-    M.at(m) = D.at(d).wrapMemory((const void*) H[h], L(t, 4), dtypeOf(t[5]));
+    occa::json wprops;
+    if (L(t, 6)) wprops["use_host_pointer"] = true;
+    M.at(m) = D.at(d).wrapMemory((const void*) H[h], L(t, 4), dtypeOf(t[5]), wprops);
     return;
   }
   if (op == "mkpool") { const int d = (int) L(t, 1), p = (int) L(t, 2); need(D.present[d] && P.present[p]); P.at(p) = D.at(d).createMemoryPool(); return; }
